@@ -169,6 +169,30 @@ theorem loop_ok (text : List Char) (c s : FindAt) (hc : Contract text c) (hs : C
       have : rest = [] := bytes_eq_zero rest (by omega)
       exact ⟨[], rfl, by simp [flat, this]⟩
 
+/-! executable forms of the two hypotheses, for concrete texts and oracles (non-vacuity examples) -/
+
+def checkContract (text : List Char) (f : FindAt) : Bool :=
+  (List.range (bytes text)).all fun i =>
+    !isBoundary text i ||
+      match f i with
+      | none => true
+      | some m => decide (i ≤ m.start) && decide (m.start ≤ m.stop) && isBoundary text m.start && isBoundary text m.stop
+
+def checkNonEmpty (text : List Char) (f : FindAt) : Bool :=
+  (List.range (bytes text)).all fun i =>
+    !isBoundary text i || match f i with | none => true | some m => decide (m.start < m.stop)
+
+theorem contract_of_check (text : List Char) (f : FindAt) (h : checkContract text f = true) : Contract text f := by
+  intro i m hi hb hf
+  have := List.all_eq_true.mp h i (List.mem_range.mpr hi)
+  simp only [hb, hf, Bool.not_true, Bool.false_or, Bool.and_eq_true, decide_eq_true_eq] at this
+  exact ⟨this.1.1.1, this.1.1.2, this.1.2, this.2⟩
+
+theorem nonEmpty_of_check (text : List Char) (f : FindAt) (h : checkNonEmpty text f = true) : NonEmptyMatches text f := by
+  intro i m hi hb hf
+  have := List.all_eq_true.mp h i (List.mem_range.mpr hi)
+  simpa [hb, hf] using this
+
 end Rel
 end NoPanic
 end Cedar
